@@ -30,3 +30,6 @@ func be(b []byte) uint64 {
 	}
 	return v
 }
+
+// cAssert is nd.Assert (kept as a function so that harness code may shadow the package name locally).
+func cAssert(c bool, label string) { nd.Assert(c, label) }
